@@ -14,6 +14,9 @@ Case kinds
   esc    a string: _escape/_unescape/DQSTRING regex/predicate.normalize/quoting decision/is_surface.
   lnk    an Lnk string: Lnk(s) and str() of it.
   lex    a string over the token alphabet (or the real encoder's text): real lexer vs lean/Verif/C01/Lexer.lean.
+  longtext deterministic long MRX / MRS-JSON documents (> 16 / 64 / 128 KiB) through loads / load (StringIO, filename,
+         open file), items regenerated from a fixed-seed pool (oracle only).
+  churn  12 structures (Indexed MRS: with 12 disagreeing SEM-Is) built, used and dropped in a row (oracle only).
   long   deterministic long documents (> 1024 / > 2048 lexer tokens, item starts around the multiples of 1024)
          for the list APIs of SimpleMRS and Indexed MRS, and single structures of that size (oracle only).
 """
@@ -840,6 +843,11 @@ class C01(Check):
             "x indent in {False,True,None,0,2} x encode/decode, dumps/loads, dump/load (StringIO, file); a purity clause "
             "(first encode/decode repeated after the battery). In every run 28 long documents (SimpleMRS, Indexed; "
             "item starts -3..+3 tokens around 1024 and 2048) and 4 single structures of > 1024 / > 2048 tokens. "
+            "Also in every run 36 long TEXT documents for MRX and MRS-JSON (> 16, > 64 and > 128 KiB; leading item shifted "
+            "by 1..40 characters; for MRX item starts exactly -1/0/+1 characters from 8192, 16384, 32768, 65536) "
+            "through loads, load(StringIO), load(filename), load(open file), indent None and 2; and object-churn "
+            "cases for all four codecs (12 structures - for Indexed MRS with 12 disagreeing SEM-Is - built, used and "
+            "dropped one after the other, two passes). "
             "Indexed MRS: a fresh SEM-I per case (8 predicates, synopses vary in role names/order/sorts/optionality "
             "and CARG listed or not/position/optional) preceded in the same case by a second, disagreeing one; also "
             "structures covered by a fixed SEM-I with 14 predicates (two with two synopses, four with CARG listed "
@@ -1030,7 +1038,7 @@ class C01(Check):
                 yield self.rt_case(rng, "indexed")
             elif r < 0.70:
                 yield self.rt_case(rng, rng.choice(["simple", "json", "mrx"]), n_items=1, family="unnormalised")
-            elif r < 0.72:
+            elif r < 0.715:
                 yield gen_churn(rng, rng.choice(["indexed", "indexed", "simple", "mrx", "json"]))
             elif r < 0.80:
                 yield self.parse_case(rng)
@@ -1572,7 +1580,7 @@ class C01(Check):
         for rnd in (0, 1):              # two passes: the second one re-creates every object once more
             for k in range(len(case["items"])):
                 r = one(k)
-                gc.collect()
+                gc.collect(0)       # the objects of this step are young; a full collection of the harness's heap is slow
                 if r[0] == "raises":
                     fail("%s churn: encode/decode raises after earlier objects were dropped" % codec,
                          "%s at step %d" % (r[1], k))
